@@ -3084,8 +3084,10 @@ class Entity(MutableMapping[str, str]):
         key = key.casefold()
         for k in self._keys:
             if k.casefold() == key:
-                # TODO: B909 bug?
-                return self._keys.pop(k)
+                value = self._keys[k]
+                # Use __delitem__, so the by_class/by_target lookups and node IDs are updated.
+                del self[k]
+                return value
         return default
 
     def clear(self) -> None:
